@@ -125,6 +125,38 @@ def _transform_fn(item, spec, log, where):
     """item: rsitems.Item of a fn; spec: dict(contract, sig_rewrites, rewrites, loops, body_start, body_end, attrs)."""
     sig = item.signature
     body = item.body
+    # rule B1: names of locals that the ghost text mentions are READ from the code (`bind`: NAME -> regex with one group, or
+    # (regex, default)); `${NAME}` in the contract, the loop specs and the inserts stands for the captured identifier, so a
+    # renamed local does not orphan the hints
+    binds = {}
+    for key, pat in (spec.get("bind") or {}).items():
+        default = None
+        if isinstance(pat, (tuple, list)):
+            pat, default = pat
+        bm = re.search(pat, body)
+        if bm:
+            binds[key] = bm.group(1)
+            if default is not None and bm.group(1) != default:
+                log.append({"rule": "B1", "site": where, "pattern": pat, "replacement": "%s = %s" % (key, bm.group(1)), "count": 1})
+        elif default is not None:
+            binds[key] = default
+            log.append({"rule": "A0", "site": where, "pattern": pat, "replacement": "(local not found: %s assumed)" % default,
+                        "count": 0, "anchor_lost": True})
+    if binds:
+        def _sub(t):
+            if isinstance(t, str):
+                for k, v in binds.items():
+                    t = t.replace("${%s}" % k, v)
+                return t
+            if isinstance(t, dict):
+                return {kk: _sub(vv) for kk, vv in t.items()}
+            if isinstance(t, (list, tuple)):
+                return type(t)(_sub(x) for x in t)
+            return t
+        spec = dict(spec)
+        for fld in ("contract", "loops", "inserts", "body_start", "body_end"):
+            if fld in spec:
+                spec[fld] = _sub(spec[fld])
     sig = _apply_rewrites(sig, spec.get("sig_rewrites", []), log, where + " (signature)")
     body = _apply_rewrites(body, spec.get("rewrites", []), log, where + " (body)")
     body = _insert_loop_specs(body, spec.get("loops"), log, where)
